@@ -117,6 +117,7 @@ def work(ctx, tier):
         ctx.inc("random_scenarios")
     if ctx.shard == 0:
         hang.cancel_while_unwinding(ctx, rounds=1 if tier == "quick" else 5)
+        hang.abort_while_other_calls_hang(ctx)
     common.flush_stats(ctx, stats)
 
 
@@ -131,6 +132,8 @@ def conclude(ctx):
         "distinct (entry, injection kind) cells": (len(ctx.sets["cells"]), 50),
         "attempt_timeout_bases": (ctx.cnt["attempt_timeout_bases"], 20),
         "cancellations_while_a_timed_out_attempt_unwinds": (ctx.cnt["cancellations_while_a_timed_out_attempt_unwinds"], 6),
+        "aborts_while_other_calls_hang": (ctx.cnt["aborts_while_other_calls_hang"], 1),
+        "hung_operations_of_other_calls": (ctx.cnt["hung_operations_of_other_calls"], 30),
     }
     return dict(
         rule=(
@@ -170,6 +173,7 @@ def replay(data):
 
         c = C()
         hang.cancel_while_unwinding(c)
+        hang.abort_while_other_calls_hang(c)
         for m in c.bad:
             print("  !!", m)
         print("replay:", "violation reproduced" if c.bad else "no violation on this tree")
